@@ -258,13 +258,13 @@ def one_program(ctx, i):
 
 def _run_partition(ctx, case, prog, cm, built, objs, parts, nest, kinds):
     """Returns the set of features to forbid in a regenerated program (empty/None: done)."""
-    order = [j for g in parts for j in g]
+    seq = list(range(len(parts)))
     if nest:
         # nesting moves group b next to group a
         a, b = nest[0]
         seq = [k for k in range(len(parts)) if k != b]
         seq.insert(seq.index(a) + 1, b)
-        order = [j for k in seq for j in parts[k]]
+    order = [j for k in seq for j in parts[k]]
     ctx.note("groups", sum(1 for g in parts if len(g) > 1))
     ctx.note("nested", len(nest))
     # --- partial links
@@ -350,7 +350,8 @@ def _run_partition(ctx, case, prog, cm, built, objs, parts, nest, kinds):
                     ctx.inconclusive("masked: static TLS segment misalignment (a C28 finding) hides the mechanism probe")
                     continue
             if mech is None and nest:
-                flat_inputs, _m, _f, fail = partial(case, "wild", parts, objs, [])
+                # same effective object order, but only first-level partial links
+                flat_inputs, _m, _f, fail = partial(case, "wild", [parts[k] for k in seq], objs, [])
                 if fail is None:
                     lr3 = pg.link_and_run(ctx, final, prog, built, kind, workdir=case.dir(f"{final}-wr-flat-" + kind), inputs_override=flat_inputs)
                     if pc.outcome(lr3, ref.transcript, kind)[0] == "same":
